@@ -8,7 +8,9 @@ namespace tbfsim {
 // H(operator, level, position code).  Each callback is "read inputs and the current output into a per-object
 // scratch -> yield -> write output = saved output + contribution", so an unordered writer of the inputs or of
 // the output, or a second worker using the same kernel object meanwhile, changes the result by value.
-template <class RealType_T, class SpaceIndexType_T>
+// FromIndex: the weight of a particle is derived from its original index (trees with fewer than four data values).
+// Result rows beyond the second (trees with more than two result values) receive odd multiples of the second row's increment.
+template <class RealType_T, class SpaceIndexType_T, bool FromIndex = false>
 class WeightKernel {
 public:
     using RealType = RealType_T;
@@ -20,6 +22,14 @@ private:
     std::vector<U> scratch;
     static U key() { return g_ctx->runKey; }
     static U wOf(RealType v) { return U((long long)(v)); }
+    template <class Data> static U weightOf(const Data& data, const long int idx[], long i) {
+        if constexpr (FromIndex) { (void)data; return wkWeight(key(), 0, idx[i]); }
+        else { (void)idx; return wOf(data[3][i]); }
+    }
+    template <class Rhs> static void extraRows(Rhs& rhs, long i, U old1) {
+        const U delta = rhs[1][i] - old1;
+        for (size_t k = 2; k < rhs.size(); ++k) rhs[k][i] += delta * U(2 * k + 1);
+    }
     void mid() { if (g_ctx->yields) yieldPoint(); }
 
 public:
@@ -32,7 +42,7 @@ public:
         NoCount noCount;
         scratch.assign(4, 0);
         for (long i = 0; i < n; ++i) {
-            const U w = wOf(data[3][i]);
+            const U w = weightOf(data, idx, i);
             scratch[0] += w;
             scratch[1] += w * wkHash(key(), WK_IDX, U(idx[i]), 0);
         }
@@ -102,6 +112,7 @@ public:
             rhs[0][i] = scratch[size_t(2 + 2 * i)] + scratch[0];
             rhs[1][i] = scratch[size_t(3 + 2 * i)] + scratch[1] * wkHash(key(), WK_L2P_A, U(idx[i]), 0)
                         + scratch[0] * wkHash(key(), WK_L2P_B, U(idx[i]), 0);
+            extraRows(rhs, i, scratch[size_t(3 + 2 * i)]);
         }
     }
 
@@ -112,7 +123,7 @@ private:
               size_t base) {
         U s0 = 0, s1 = 0;
         for (long j = 0; j < nSrc; ++j) {
-            const U w = wOf(srcData[3][j]);
+            const U w = weightOf(srcData, srcIdx, j);
             s0 += w;
             s1 += w * wkHash(key(), WK_IDX, U(srcIdx[j]), 0);
         }
@@ -126,6 +137,7 @@ private:
         for (long i = 0; i < nTgt; ++i) {
             tgtRhs[0][i] = scratch[base + 2 + size_t(2 * i)] + scratch[base];
             tgtRhs[1][i] = scratch[base + 3 + size_t(2 * i)] + scratch[base + 1] * a * wkHash(key(), WK_TGT, U(tgtIdx[i]), 0);
+            extraRows(tgtRhs, i, scratch[base + 3 + size_t(2 * i)]);
         }
     }
 
@@ -167,7 +179,7 @@ public:
         scratch.assign(size_t(2 + 4 * n), 0);
         U s0 = 0, s1 = 0;
         for (long j = 0; j < n; ++j) {
-            const U w = wOf(data[3][j]);
+            const U w = weightOf(data, idx, j);
             const U wi = w * wkHash(key(), WK_IDX, U(idx[j]), 0);
             s0 += w; s1 += wi;
             scratch[size_t(2 + 4 * j)] = w; scratch[size_t(3 + 4 * j)] = wi;
@@ -179,6 +191,7 @@ public:
         for (long i = 0; i < n; ++i) {
             rhs[0][i] = scratch[size_t(4 + 4 * i)] + (scratch[0] - scratch[size_t(2 + 4 * i)]);
             rhs[1][i] = scratch[size_t(5 + 4 * i)] + (scratch[1] - scratch[size_t(3 + 4 * i)]) * a * wkHash(key(), WK_TGT, U(idx[i]), 0);
+            extraRows(rhs, i, scratch[size_t(5 + 4 * i)]);
         }
     }
 };
